@@ -1,0 +1,38 @@
+//go:build verif
+
+package aggsender
+
+import (
+	"github.com/agglayer/aggkit/agglayer"
+	"github.com/agglayer/aggkit/aggsender/config"
+	"github.com/agglayer/aggkit/aggsender/db"
+	"github.com/agglayer/aggkit/aggsender/statuschecker"
+	"github.com/agglayer/aggkit/aggsender/types"
+	aggkitcommon "github.com/agglayer/aggkit/common"
+	"github.com/agglayer/aggkit/log"
+)
+
+// VerifNewWithFlow builds an AggSender like New does, but around a caller-built storage and flow
+// (e.g. the aggchain-prover flow with a fake prover client), for the runtime-verification harness.
+func VerifNewWithFlow(
+	logger *log.Logger,
+	cfg config.Config,
+	aggLayerClient agglayer.AgglayerClientInterface,
+	storage db.AggSenderStorage,
+	flow types.AggsenderFlow,
+	epochNotifier types.EpochNotifier,
+	l2OriginNetwork uint32,
+) *AggSender {
+	return &AggSender{
+		cfg:               cfg,
+		log:               logger,
+		storage:           storage,
+		aggLayerClient:    aggLayerClient,
+		epochNotifier:     epochNotifier,
+		status:            &types.AggsenderStatus{Status: types.StatusNone},
+		flow:              flow,
+		rateLimiter:       aggkitcommon.NewRateLimit(cfg.MaxSubmitCertificateRate),
+		l2OriginNetwork:   l2OriginNetwork,
+		certStatusChecker: statuschecker.NewCertStatusChecker(logger, storage, aggLayerClient, l2OriginNetwork),
+	}
+}
